@@ -35,6 +35,9 @@ fn run_check(id: &str, cfg: &RunCfg) -> Option<Report> {
         "C06" => checks::hist::run(cfg, &checks::hist::C06),
         "C07" => checks::hist::run(cfg, &checks::hist::C07),
         "C15" => checks::hist::run(cfg, &checks::hist::C15),
+        "C16" => checks::codec::run(cfg, false),
+        "C17" => checks::codec::run(cfg, true),
+        "C18" => checks::c18::run(cfg),
         _ => return None,
     })
 }
@@ -49,6 +52,9 @@ fn replay_check(id: &str, v: &serde_json::Value) -> Option<Result<(), String>> {
         "C06" => checks::hist::replay(&checks::hist::C06, v),
         "C07" => checks::hist::replay(&checks::hist::C07, v),
         "C15" => checks::hist::replay(&checks::hist::C15, v),
+        "C16" => checks::codec::replay(v, false),
+        "C17" => checks::codec::replay(v, true),
+        "C18" => checks::c18::replay(v),
         _ => return None,
     })
 }
